@@ -61,9 +61,10 @@ type Contract struct {
 	Allocates []string // for assumed contracts: component names that may receive fresh objects
 	Bounded   string   // bounded-standin description
 	Havoc     bool     // assumed: havoc all state (unknown side effects)
+	Reveal    []string // opaque spec functions whose definition this function's proof may use
 }
 
-var kwRe = regexp.MustCompile(`^(axiom|func|props|requires|ensures|lemma|modifies|loop|decreases|assumed|pure|nosafety|inline|maypanic|note|let|allocates|bounded-standin|havoc)\b`)
+var kwRe = regexp.MustCompile(`^(axiom|func|props|requires|ensures|lemma|reveal|modifies|loop|decreases|assumed|pure|nosafety|inline|maypanic|note|let|allocates|bounded-standin|havoc)\b`)
 var funcRe = regexp.MustCompile(`^func\s+(\([^)]*\)\.)?([A-Za-z0-9_./$#\-]+)\s*\(([^)]*)\)\s*(\(([^)]*)\))?\s*$`)
 
 // parseContractFile reads contracts from a file. pkgPath qualifies
@@ -160,6 +161,8 @@ func parseContractFile(path, pkgPath string) ([]*Contract, []Clause, error) {
 		switch kw {
 		case "props":
 			cur.Props = append(cur.Props, strings.Fields(rest)...)
+		case "reveal":
+			cur.Reveal = append(cur.Reveal, strings.Fields(strings.ReplaceAll(rest, ",", " "))...)
 		case "requires":
 			cur.Requires = append(cur.Requires, mkClause(rest))
 			lastClause = &cur.Requires[len(cur.Requires)-1]
